@@ -71,7 +71,7 @@ pub fn run(ctx: &Ctx, rep: &mut Reporter) {
             use pgvcore::sinks::{FaultSink, Schedule};
             let at = *rng.pick(&[1usize, 2, 3, 4, 6, 9, 14]);
             let mut sink = FaultSink::new(if rng.chance(3, 4) { Schedule::FailAt(at) } else { Schedule::ZeroAt(at) });
-            let r = guarded(|| cur::write_cache_to(&text, &mut sink));
+            let r = guarded(|| cur::write_cache_to(if case_idx % 4 == 1 { OTHER_MAPPING } else { &text[..] }, &mut sink));
             if let Ok(Err(_)) = r {
                 rep.count("files_written_after_a_failed_write_on_the_same_thread", 1);
             }
